@@ -30,6 +30,8 @@ pub enum PL {
     Repeated,
     /// repeated scalar with [packed = false]
     RepeatedUnpacked,
+    /// repeated scalar with [packed = true] (proto2 file only)
+    Packed,
     /// map<key kind, field kind>
     Map(PK),
     Oneof(&'static str),
@@ -167,7 +169,60 @@ pub fn pcorpus() -> PCorpus {
             f(536870911, Uint32, Optional),
         ],
     });
+    proto2_part(&mut c);
     c
+}
+
+/// Messages of the proto2 file (names start with "P2"): required and optional
+/// fields of every scalar kind, a required message field (decoded in place
+/// rather than through an Option), repeated fields that are unpacked by default
+/// and packed by option, an enum without a zero value.
+fn proto2_part(c: &mut PCorpus) {
+    use PK::*;
+    use PL::*;
+    c.enums.push(("P2Kind", vec![("P2_ONE", 1), ("P2_FIVE", 5), ("P2_NEG", -3)]));
+    let scalars = [Int32, Int64, Uint32, Uint64, Sint32, Sint64, Bool, Fixed32, Fixed64, Sfixed32, Sfixed64, Float, Double, String, Bytes, Enum("P2Kind")];
+    c.msgs.push(PMsg { name: "P2Small", fields: vec![f(1, Int32, Single), f(2, String, Optional), f(3, Bytes, Single)] });
+    let mut req = vec![];
+    let mut tag = 1;
+    for k in scalars.iter() {
+        req.push(f(tag, k.clone(), Single));
+        tag += 1;
+    }
+    req.push(f(tag, Msg("P2Small"), Single));
+    c.msgs.push(PMsg { name: "P2Req", fields: req });
+    let mut opt = vec![];
+    let mut tag = 1;
+    for k in scalars.iter() {
+        opt.push(f(tag, k.clone(), Optional));
+        tag += 1;
+    }
+    for k in scalars.iter() {
+        opt.push(f(tag, k.clone(), Repeated));
+        tag += 1;
+    }
+    for k in scalars.iter() {
+        if !matches!(k, String | Bytes) {
+            opt.push(f(tag, k.clone(), Packed));
+            tag += 1;
+        }
+    }
+    opt.push(f(tag, Msg("P2Small"), Optional));
+    opt.push(f(tag + 1, Msg("P2Small"), Repeated));
+    opt.push(f(tag + 2, Msg("P2Small"), Map(Int32)));
+    opt.push(f(tag + 3, Enum("P2Kind"), Map(String)));
+    opt.push(f(tag + 4, Msg("P2Req"), Oneof("which")));
+    opt.push(f(tag + 5, Enum("P2Kind"), Oneof("which")));
+    opt.push(f(tag + 6, Sfixed32, Oneof("which")));
+    c.msgs.push(PMsg { name: "P2Opt", fields: opt });
+    c.msgs.push(PMsg {
+        name: "P2Rec",
+        fields: vec![f(1, Msg("P2Rec"), Optional), f(2, Msg("P2Small"), Single), f(3, Msg("P2Rec"), Repeated), f(4, Msg("P2Opt"), Optional), f(5, Sint64, Single)],
+    });
+}
+
+fn is_proto2(name: &str) -> bool {
+    name.starts_with("P2")
 }
 
 fn kind_text(k: &PK) -> String {
@@ -193,18 +248,28 @@ fn kind_text(k: &PK) -> String {
 
 pub fn print_proto(c: &PCorpus) -> String {
     let mut o = String::from("syntax = \"proto3\";\npackage pcorpus;\n\n");
-    for (n, vs) in &c.enums {
+    print_file(c, false, &mut o);
+    o
+}
+
+pub fn print_proto2(c: &PCorpus) -> String {
+    let mut o = String::from("syntax = \"proto2\";\npackage pcorpus2;\n\n");
+    print_file(c, true, &mut o);
+    o
+}
+
+fn print_file(c: &PCorpus, proto2: bool, o: &mut String) {
+    for (n, vs) in c.enums.iter().filter(|(n, _)| is_proto2(n) == proto2) {
         o.push_str(&format!("enum {} {{\n", n));
         for (vn, v) in vs {
             o.push_str(&format!("  {} = {};\n", vn, v));
         }
         o.push_str("}\n\n");
     }
-    for m in c.msgs.iter().filter(|m| !m.name.contains('.')) {
-        print_msg(c, m, 0, &mut o);
+    for m in c.msgs.iter().filter(|m| !m.name.contains('.') && is_proto2(m.name) == proto2) {
+        print_msg(c, m, 0, o);
         o.push('\n');
     }
-    o
 }
 
 fn print_msg(c: &PCorpus, m: &PMsg, indent: usize, o: &mut String) {
@@ -224,7 +289,9 @@ fn print_msg(c: &PCorpus, m: &PMsg, indent: usize, o: &mut String) {
                     oneofs.push(g);
                 }
             }
+            PL::Single if is_proto2(m.name) => o.push_str(&format!("{}  required {} {} = {};\n", pad, kind_text(&fl.kind), fl.name, fl.tag)),
             PL::Single => o.push_str(&format!("{}  {} {} = {};\n", pad, kind_text(&fl.kind), fl.name, fl.tag)),
+            PL::Packed => o.push_str(&format!("{}  repeated {} {} = {} [packed = true];\n", pad, kind_text(&fl.kind), fl.name, fl.tag)),
             PL::Optional => o.push_str(&format!("{}  optional {} {} = {};\n", pad, kind_text(&fl.kind), fl.name, fl.tag)),
             PL::Repeated => o.push_str(&format!("{}  repeated {} {} = {};\n", pad, kind_text(&fl.kind), fl.name, fl.tag)),
             PL::RepeatedUnpacked => o.push_str(&format!("{}  repeated {} {} = {} [packed = false];\n", pad, kind_text(&fl.kind), fl.name, fl.tag)),
